@@ -1123,7 +1123,7 @@ class CallMixin:
             self.mutate(recv, new, line)
             return SV(None, T.NONE)
         if recv.term is None:
-            if name in ("pop", "remove", "index"):
+            if name in ("pop", "popleft", "remove", "index"):
                 self.safety(z3.BoolVal(False), f"{name}-on-empty-list", line)
                 raise PathEnd()
             if name in ("clear", "sort", "reverse"):
@@ -1135,8 +1135,10 @@ class CallMixin:
         mk, ln, arr = self.lst(recv)
         n = self.list_len(recv)
         el_t = recv.ty.args[0]
-        if name == "pop":
-            if args:
+        if name in ("pop", "popleft"):
+            if name == "popleft":  # collections.deque modelled as a list
+                i0 = z3.IntVal(0)
+            elif args:
                 i0 = self.coerce(args[0], T.INT).term
                 i0 = z3.If(i0 < 0, i0 + n, i0)
             else:
